@@ -26,6 +26,7 @@ def scenarios(seed, tier):
         # every fifth case on a zone-aware grid, half of them across a daylight-saving switch (a repeated or missing local hour)
         import pandas as pd
         dstc = (i % 5 == 1)
+        solver_i = [None, None, None, 'SCIPY', None, 'CLARABEL', None, 'SCS', None, None, 'SCS', None][i % 12]
         s = gen.gen_portfolio(random.Random(rnd.getrandbits(48)), tmax=(8 if not dstc else 11) if tier == 'quick' else 14, allow_mip=False,
                               tz_prob=0.05 if not dstc else 1.0, tmin=2 if not dstc else 8,
                               grids=None if not dstc else [('h', 'h', pd.Timedelta(hours=1)), ('h', 'h', pd.Timedelta(hours=1)), ('2h', 'h', pd.Timedelta(hours=2))],
@@ -43,6 +44,8 @@ def scenarios(seed, tier):
                     for a in s['assets']:
                         a['args']['start'] = gen.dtv(st)
                         a['args'].pop('end', None)
+        if solver_i is not None and not s.get('split'):
+            s['solver'] = solver_i
         yield 'gen%d' % i, s
 
 
@@ -83,7 +86,13 @@ def run_case(scn, drv):
         feats.append('skip:mip')
         return r
     r['disagreements'] += pf.corr_assemble(rec, drv, aspects=('nodalrows', 'nodal'))
-    pf.solve_rec(rec)
+    solver = scn.get('solver')
+    try:
+        pf.solve_rec(rec, solver=solver)
+    except Exception as e:
+        feats.append('solver-exception:%s:%s' % (solver, type(e).__name__))
+        return r
+    feats.append('solver:%s' % solver)
     res = rec['res']
     if isinstance(res, str):
         feats.append('unsolved:' + res)
@@ -96,6 +105,8 @@ def run_case(scn, drv):
     tg = rec['tg']
     V = float(res.value)
     tol = 2e-6 * max(1.0, abs(V), float(np.abs(op.c).max()) * float(np.abs(res.x).max() if len(res.x) else 1))
+    if solver in ('SCS', 'OSQP'):
+        tol *= 5000.0        # first-order solvers: values and duals to about 1e-3 .. 1e-2 relative
     pr = out['prices']
     prices_by_pair = {}
     for (t, n) in op.map_nodal_restr:
